@@ -62,4 +62,61 @@ mod triage {
         assert!(matches!(cmd, PieceCmd::Ignore));
         assert_eq!(st[2], Status::Missing, "piece 2 is {:?} although the choking peer was not asked for it", st[2]);
     }
+
+    // D11c (C12): a sequence of ordinary peer events must not abort the manager
+    #[tokio::test]
+    async fn d11c_piece_done_after_empty_unchoke_panics_manager() {
+        let mut s = Session::new(metainfo(12), [1; 20]);
+        for a in ["a:1", "b:1"] {
+            let job = tokio::spawn(async {});
+            s.peers.insert(a.to_string(), Peer::new(None, 12, job));
+            let mut have = vec![false; 12];
+            have[0] = true;
+            let (tx, _rx) = oneshot::channel();
+            s.handle_bitfield(&a.to_string(), &Bitfield::from_vec(&have), tx).await.unwrap();
+        }
+        let a = "a:1".to_string();
+        let b = "b:1".to_string();
+        let (tx, _rx) = oneshot::channel();
+        s.handle_unchoke(&a, tx).await.unwrap(); // A is asked for piece 0
+        assert_eq!(s.peers[&a].piece_index, Some(0));
+        s.handle_choke(&a).await.unwrap(); // A chokes us: piece 0 is Missing again
+        let (tx, _rx) = oneshot::channel();
+        s.handle_unchoke(&b, tx).await.unwrap(); // B is asked for piece 0
+        let (tx, _rx) = oneshot::channel();
+        s.handle_unchoke(&a, tx).await.unwrap(); // A unchokes: nothing to assign
+        assert_eq!(s.peers[&a].piece_index, None);
+        // A's connection task still holds its half-filled piece 0, A answers the outstanding
+        // requests, the piece verifies and the task reports PieceDone:
+        let (tx, _rx) = oneshot::channel();
+        let _ = s.handle_piece_done(&a, tx).await; // panics: "Piece downloaded but not requested"
+    }
+
+    // D11d (C12): same history, but piece 0 is completed by B first: A's task cancels its copy
+    #[tokio::test]
+    async fn d11d_piece_cancel_after_empty_unchoke_panics_manager() {
+        let mut s = Session::new(metainfo(12), [1; 20]);
+        for a in ["a:1", "b:1"] {
+            let job = tokio::spawn(async {});
+            s.peers.insert(a.to_string(), Peer::new(None, 12, job));
+            let mut have = vec![false; 12];
+            have[0] = true;
+            let (tx, _rx) = oneshot::channel();
+            s.handle_bitfield(&a.to_string(), &Bitfield::from_vec(&have), tx).await.unwrap();
+        }
+        let a = "a:1".to_string();
+        let b = "b:1".to_string();
+        let (tx, _rx) = oneshot::channel();
+        s.handle_unchoke(&a, tx).await.unwrap();
+        s.handle_choke(&a).await.unwrap();
+        let (tx, _rx) = oneshot::channel();
+        s.handle_unchoke(&b, tx).await.unwrap();
+        let (tx, _rx) = oneshot::channel();
+        s.handle_unchoke(&a, tx).await.unwrap();
+        let (tx, _rx) = oneshot::channel();
+        s.handle_piece_done(&b, tx).await.unwrap(); // B finishes piece 0 -> SendHave{0} broadcast
+        // A's task still holds piece 0, sees SendHave{0}, cancels and reports PieceCancel:
+        let (tx, _rx) = oneshot::channel();
+        let _ = s.handle_piece_cancel(&a, tx).await; // panics: "Piece cancelled but not requested"
+    }
 }
